@@ -92,12 +92,25 @@ ITEM_LABEL = dict(a_obs="observation acted on", b_next_obs="successor observatio
                   g_state="policy state acted from", h_next_state="policy's next state")
 
 
+def _vary_action_box(E0, rng):
+    """native replays: bounded action boxes are replaced in turn by asymmetric and half-bounded ones (same shape), so that clipping against EACH bound matters"""
+    if not isinstance(E0.action_space, Box):
+        return E0
+    n = int(np.prod(E0.action_space.shape)) or 1
+    variants = [None, (np.linspace(0.0, -1.0, n), np.linspace(1.0, 3.0, n)), (np.full(n, 0.25), np.full(n, np.inf)), (np.full(n, -np.inf), np.full(n, -0.25)), (np.full(n, -0.1), np.full(n, 0.05))]
+    v = variants[int(rng.randint(len(variants)))]
+    if v is None:
+        return E0
+    shape = E0.action_space.shape
+    return eqx.tree_at(lambda e: e.action_space, E0, Box(jnp.asarray(v[0], jnp.float32).reshape(shape), jnp.asarray(v[1], jnp.float32).reshape(shape)))
+
+
 def native_replay_factory(cfg):
     def replay(model):
         mk_algo, mk_env, build = CONFIGS[cfg]
 
         def make_inputs(rng):
-            E = build(mk_env())
+            E = build(_vary_action_box(mk_env(), rng))
             pol = GenericPolicy(E.action_space, E.observation_space, theta=jnp.asarray(rng.randn(2), f32))
             st = kit.concrete_like(step_state_struct(E), rng)
             st = eqx.tree_at(lambda s: s.buffer.position, st, jnp.asarray(int(rng.randint(0, 20))))
@@ -117,7 +130,7 @@ def native_replay_factory(cfg):
             if not kit.trees_close(nst.policy_state, sp["policy_state"]):
                 problems.append("next policy state differs from spec")
             return (not problems), dict(problems=problems)
-        return kit.native_search(check, make_inputs, bool_names=("env.terminal", "env.truncate"), trials=3)
+        return kit.native_search(check, make_inputs, bool_names=("env.terminal", "env.truncate"), trials=10)
     return replay
 
 
